@@ -1,8 +1,8 @@
 #!/bin/bash
 # usage: tools/import2.sh <ID> [checks]   imports round-2 outputs /tmp/seed2-<ID>/out/{C,D} and removes the agent's worktree
 id=$1; checks=${2:-$id}
-for x in C D; do
-  [ -d /tmp/seed2-$id/out/$x ] || { echo "no $x"; continue; }
-  echo "=== $id-$x"; python3 /verif/tools/seed_import.py $id $x --src /tmp/seed2-$id/out/$x --checks $checks 2>&1 | tail -${TAILN:-3} | cut -c1-420
+for x in ${NAMES:-C D}; do
+  [ -d /tmp/seed${ROUND:-2}-$id/out/$x ] || { echo "no $x"; continue; }
+  echo "=== $id-$x"; python3 /verif/tools/seed_import.py $id $x --src /tmp/seed${ROUND:-2}-$id/out/$x --checks $checks 2>&1 | tail -${TAILN:-3} | cut -c1-420
 done
-git -C /repo worktree remove --force /tmp/seed2-$id/wt 2>/dev/null
+git -C /repo worktree remove --force /tmp/seed${ROUND:-2}-$id/wt 2>/dev/null
